@@ -52,6 +52,9 @@ pub struct Graph {
     /// formula graphs: states with s % m == r are outside the boundary ([m, r]); empty = everything inside
     #[serde(default)]
     pub inb_mod: Vec<u32>,
+    /// every evaluation of the first property takes this many microseconds (checks that are still running when asked)
+    #[serde(default)]
+    pub slow_us: u64,
 }
 
 #[derive(Clone)]
@@ -99,6 +102,9 @@ impl TableModel {
         }
         if i == 0 {
             self.evals.fetch_add(1, Ordering::SeqCst);
+            if self.g.slow_us > 0 {
+                std::thread::sleep(Duration::from_micros(self.g.slow_us));
+            }
             if self.g.poison != 0 && self.poisoned.load(Ordering::SeqCst) {
                 self.after_poison.fetch_add(1, Ordering::SeqCst);
                 if self.g.family == "twochains" {
@@ -345,6 +351,9 @@ pub struct Cfg {
     /// wait for the run with Checker::join_and_report instead of joining the handles
     #[serde(default)]
     pub join_and_report: bool,
+    /// bfs/dfs: call assert_properties shortly after spawning, while the check may still be running
+    #[serde(default)]
+    pub early_assert: bool,
     /// also feed the crate's own PathRecorder and StateRecorder visitors (what they recorded goes into the run record)
     #[serde(default)]
     pub recorders: bool,
@@ -515,6 +524,13 @@ where
         };
     }
     let handles = c.handles();
+    if cfg.early_assert && cfg.strategy != "ondemand" {
+        std::thread::sleep(Duration::from_millis(3));
+        let done_before = c.is_done();
+        let panicked = catch_unwind(AssertUnwindSafe(|| c.assert_properties())).is_err();
+        let done_after = c.is_done();
+        EARLY.with(|e| e.set(Some((done_before, panicked, done_after))));
+    }
     let mut requests_stuck = false;
     if cfg.strategy == "ondemand" {
         // the requests are made on a thread of their own: check_fingerprint / run_to_completion are calls into the code
@@ -687,8 +703,13 @@ where
 }
 
 static SYM_LOCK: Mutex<()> = Mutex::new(());
+thread_local! {
+    /// (is_done before, assert_properties panicked, is_done after) of the early call, if one was made
+    static EARLY: std::cell::Cell<Option<(bool, bool, bool)>> = std::cell::Cell::new(None);
+}
 
 pub fn run_one(g: &Graph, cfg: &Cfg) -> Value {
+    EARLY.with(|e| e.set(None));
     let model = TableModel::new(g.clone());
     let vlog = Arc::new(Mutex::new(Vec::new()));
     let clog = Arc::new(Mutex::new(Vec::new()));
@@ -798,7 +819,11 @@ pub fn run_one(g: &Graph, cfg: &Cfg) -> Value {
             "max_depth": 0, "discoveries": [], "disc_panicked": false, "assert_panicked": false,
             "handles_left": 0, "wall_ms": 0, "spawn_panicked": spawn_panicked, "evals": 0}),
     };
+    let early = EARLY.with(|e| e.take());
     let mut out = json!({"cfg": cfg, "visits": visits, "chooser": chooser, "chooser2": chooser2, "done": done, "market": market});
+    if let Some((b, p, a)) = early {
+        out["early"] = json!({"done_before": b, "panicked": p, "done_after": a});
+    }
     if let Some((pa, sa)) = rec_access {
         let mut paths: Vec<Value> = pa()
             .into_iter()
@@ -892,7 +917,7 @@ pub fn main_matches(out: &str) {
                 .map(|(i, k)| PropSpec { kind: kinds[*k].to_string(), name: names[i].to_string(), sat: vec![], mode: "all".into(), m: 0, r: 0 })
                 .collect();
             let g = Graph { id: "m".into(), family: "table".into(), n: 1, init: vec![1], succ: vec![vec![]], inb: vec![true],
-                            props: props.clone(), params: vec![], poison: 0, rep: vec![], inb_mod: vec![] };
+                            props: props.clone(), params: vec![], poison: 0, rep: vec![], inb_mod: vec![], slow_us: 0 };
             let model = TableModel::new(g);
             let plist = model.properties();
             for dmask in 0..(1u32 << n) {
